@@ -20,8 +20,31 @@ def run_c(script_text, asan=False, timeout=600):
     return rc, out, err
 
 
+# which matrix_addrow the library has: "orig" (as found: exit(1) when a row repeats a column index and the store is nearly
+# full, open finding F-C06-matrix-addrow-exit) or "fixed" (notes/repo_patches/matrix_addrow_repeated_column.diff).  The model
+# has both (Store.Matrix: parameter `fixed`); the driver takes the variant from QSX_L2_ADDROW.
+ADDROW_PROBE = ["CREATE h0 p MIN", "NEWROW h0 0 L -", "NEWROW h0 0 L -", "NEWROW h0 0 L -",
+                "ADDCOL h0 0 0 inf a 3 0 1 1 1 2 1", "ADDCOL h0 0 0 inf b 993" + " 0 1" * 993, "DELROW h0 2",
+                "ADDROW h0 0 L - 2 0 5 0 7", "Q h0 counts"]
+_l2_variant = None
+
+
+def l2_variant():
+    """probe the library once: column 0 (two entries) is followed by one hole, matfree = 1, the new row lists column 0 twice"""
+    global _l2_variant
+    if _l2_variant is None:
+        rc, out, err = run_harness("h_store", "CASE probe\nRESET\n" + "\n".join(ADDROW_PROBE) + "\n", timeout=60)
+        recs = records(out)[1].get("probe", [])
+        done = len(recs) == len(ADDROW_PROBE) + 1 and rec_status(recs[-2]) == "OK" and rec_payload(recs[-1]) == ["2", "3", "997"]
+        died_there = len(recs) == len(ADDROW_PROBE) - 1 and rc != 0
+        _l2_variant = "fixed" if (rc == 0 and done) else ("orig" if died_there else "unknown")
+        os.environ["QSX_L2_ADDROW"] = "orig" if _l2_variant == "orig" else "fixed"
+    return _l2_variant
+
+
 def run_m(script_text, M, timeout=600):
     build_model()
+    l2_variant()
     exe = os.path.join(VERIF, "ocaml", "gen", "drv_store")
     r = sh([exe], timeout=timeout, input="M %s\n" % M + script_text)
     if r.returncode != 0:
